@@ -327,6 +327,7 @@ def _tok_eq(i, r):
 def ref_eq(impl, ref):
     if ref == "*":
         return True
+    impl = impl.split(" # ", 1)[0]       # white-box part of observation level 3: implementation vs model only
     ti, tr = impl.split(" "), ref.split(" ")
     return len(ti) == len(tr) and all(_tok_eq(a, b) for a, b in zip(ti, tr))
 
@@ -349,10 +350,10 @@ def shapes_scope(nmax, nfull, rng=None, sample_n=None, nperms=0):
             if n == sample_n:
                 perms = [tuple(rng.sample(keys, n)) for _ in range(nperms)]
             for perm in perms:
-                pre = ["dom 0 %d" % (2 * n), "obs 0"] + [f"{c} ins {k} {10 + j}" for j, k in enumerate(perm)] + ["obs 2"]
+                pre = ["dom 0 %d" % (2 * n), "obs 0"] + [f"{c} ins {k} {10 + j}" for j, k in enumerate(perm)] + ["obs 3"]
                 if c == 1 and n >= 2:
                     # multimap: make two keys equal so that runs of equal keys occur
-                    pre = pre[:2] + [f"{c} ins {k if k != 2 * n - 1 else 1} {10 + j}" for j, k in enumerate(perm)] + ["obs 2"]
+                    pre = pre[:2] + [f"{c} ins {k if k != 2 * n - 1 else 1} {10 + j}" for j, k in enumerate(perm)] + ["obs 3"]
                 fol = []
                 for p in range(n):
                     fol.append([f"{c} rmat {p}"])
@@ -387,7 +388,7 @@ def short_scope(depth):
     for c in (0, 1):
         def rec(prefix, size_hi):
             if prefix:
-                hs.append(["dom -1 3"] + prefix)
+                hs.append(["dom -1 3", "obs 3"] + prefix)
             if len(prefix) == depth:
                 return
             v = len(prefix) + 1
@@ -406,7 +407,7 @@ def short_scope(depth):
     return hs
 
 
-def gen_random(rng, length, nkeys, lvl=2, wb=False):
+def gen_random(rng, length, nkeys, lvl=3, wb=False):
     """structured random history over the four containers; the generator tracks upper bounds of the
     sizes only (a position may still be out of range: both sides must then say bad-op)"""
     lo = rng.choice([-3, 0, 0, 1])
